@@ -1,2 +1,43 @@
-(** placeholder until the theorems land *)
-From SP Require Import Core.Card.
+(** C10 - Cardinality constraints are encoded exactly.
+
+    [request kd k vs] (kd = EQ / LT / GT: exactly / fewer than / more than [k]
+    of the literals [vs] are true), run on a fresh clause store whose variables
+    1..n are already allocated, succeeds and produces clauses over 1..n' that
+    - can be satisfied by an extension of an assignment [s] of 1..n exactly
+      when the number of true literals of [vs] under [s] stands in the
+      relation [rel kd] to [k], and
+    - determine the auxiliary variables n+1..n' uniquely.
+    [vs] may be any non-empty list of literals of variables 1..n ([count] is
+    positional); a list of distinct positive variables is the special case of
+    the informal statement. *)
+From Coq Require Import ZArith List Bool Lia.
+From SP Require Import Base.Sat Base.Bits Core.CnfModel Core.Card Core.CardProofs.
+Import ListNotations.
+Open Scope Z_scope.
+
+Theorem C10_exact : forall kd k vs n,
+  0 <= n -> 0 <= k -> vs <> [] -> Forall (inr n) vs ->
+  exists n' clauses,
+    request kd k vs {| next := n; cls := [] |}
+    = (true, {| next := n'; cls := clauses |}) /\
+    n <= n' /\ vars_upto n' clauses /\
+    (forall s, (exists t, agree_upto n s t /\ sat t clauses = true)
+               <-> match kd with
+                   | EQ => count s vs = k
+                   | LT => count s vs < k
+                   | GT => count s vs > k
+                   end) /\
+    (forall t1 t2, agree_upto n t1 t2 ->
+       sat t1 clauses = true -> sat t2 clauses = true -> agree_upto n' t1 t2).
+Proof. exact request_correct. Qed.
+Print Assumptions C10_exact.
+
+(** The hypotheses are satisfiable, e.g. "fewer than 2 of x1, -x2, x3, x3". *)
+Example C10_instance :
+  0 <= 3 /\ 0 <= 2 /\ [1; -2; 3; 3] <> [] /\ Forall (inr 3) [1; -2; 3; 3] /\
+  fst (fst (run_request 3 LT 2 [1; -2; 3; 3])) = true /\
+  snd (fst (run_request 3 LT 2 [1; -2; 3; 3])) = 40.
+Proof.
+  split; [lia|]. split; [lia|]. split; [discriminate|].
+  split; [repeat constructor; unfold inr; lia|]. vm_compute. split; reflexivity.
+Qed.
